@@ -21,3 +21,17 @@ PROPS['C19'] = dict(
     assumptions=COMMON_ASSUME + ['default feature set (the `checks` feature turns several non-bijective inputs into asserts; those are exercised under C08)'],
     pending_theorems=['refinement theorem for compose_fresh / bijection_from_fresh_to (covered by correspondence only)'],
 )
+
+PROPS['C17'] = dict(
+    level='proof',
+    module='SlotVerif.Props.C17',
+    suites=[dict(name='slot', variant='default',
+                 quick=dict(count=30000), thorough=dict(count=1000000))],
+    rule='corr.slot.table: random interleavings (2-30 ops) of Slot::fresh / Slot::numeric / Slot::named / Display / '
+         'print-then-parse in a fresh thread (empty slot table), names drawn from a pool of plain identifiers, f<n>, f0<n>, '
+         'f+<n>, <n>, 0<n>, +<n>, numbers around 2^30 and 2^32, empty, unicode digits; final equality matrix of all issued '
+         'slots. non-trivial = the case contains a fresh call and a numeric-looking or f-prefixed name; distinct = by hash of the case line',
+    trusted_base=['modelled, not verified: str::parse::<u32>, u32::to_string (model: Nat.toDigits/ofDigitChars with the u32 bound), HashMap<String,u32> lookup (model: List.idxOf)'],
+    assumptions=COMMON_ASSUME + ['debug build: u32 overflow panics (Slot::numeric(u) for u >= 2^30, fresh counter exhaustion) are modelled as panics',
+                                 'one thread; the table is thread-local (cross-thread independence is C20)'],
+)
